@@ -824,6 +824,8 @@ class Stmt:
                     for q in ex.subqueries():
                         t |= q.tags()
         if self.kind == "merge":
+            if self.extra.get("self"):
+                t.add("merge.self_assignment")
             t.add("merge.source_" + self.extra["source"].kind)
             t |= self.extra["source"].tags()
         return t
@@ -863,8 +865,11 @@ class Stmt:
             return tgt, pairs
         if k == "merge":
             s = self.extra["source"]
-            if self.extra.get("self"):
+            if self.extra.get("self") and not self.extra.get("self_model"):
                 notes.add("merge_reads_its_target_row")  # the tool attributes such an assignment to the source (KF-44): outside the model
+            for a, x in (self.extra.get("self") or []) if self.extra.get("self_model") else []:
+                for o in _rel_col(self.target, x.name, {}, ds, notes):
+                    pairs.add((o, a))  # a = <target>.b depends on the target's own column
             for a, b in (self.extra.get("update") or []) + (self.extra.get("insert") or []):
                 for o in _rel_col(s, b, {}, ds, notes):
                     pairs.add((o, a))
